@@ -660,21 +660,26 @@ def run_corpus(ctx, exe, found):
 
 # ----------------------------------------------------------------------------- main
 def run(ctx):
-    build_lib(ctx)
-    proofs_ok = coq_properties(ctx)
-    runner = build_runner(ctx); exe = build_harness(ctx, 'C05')
+    build_lib(ctx); ctx.log('library built')
+    proofs_ok = coq_properties(ctx); ctx.log('theorems re-checked: %s' % ('ok' if proofs_ok else 'BROKEN'))
+    runner = build_runner(ctx); exe = build_harness(ctx, 'C05'); ctx.log('runner and harness built')
     if runner is None or exe is None:
         print('ERROR: model runner or harness does not build'); sys.exit(3)
     q = ctx.quick()
     found = [False]
-    run_corpus(ctx, exe, found)
-    run_kriging(ctx, exe, 90 if q else 900, found)
-    run_xvalid(ctx, exe, 40 if q else 400, found)
-    run_vario(ctx, exe, 80 if q else 800, found)
-    run_stats(ctx, exe, runner, 64 if q else 640, found)
-    run_matrices(ctx, exe, 64 if q else 640, found)
-    run_ranks(ctx, exe, runner, 120 if q else 1500, found)
-    run_simtub(ctx, exe, 16 if q else 120, found)
+    only = os.environ.get('C05_ONLY', '').split(',') if os.environ.get('C05_ONLY') else None   # debugging aid: run some sections only
+    def want(name):
+        ctx.log('section', name)
+        return only is None or name in only
+    if want('corpus'): run_corpus(ctx, exe, found)
+    if want('kriging'): run_kriging(ctx, exe, 90 if q else 900, found)
+    if want('xvalid'): run_xvalid(ctx, exe, 40 if q else 400, found)
+    if want('vario'): run_vario(ctx, exe, 80 if q else 800, found)
+    if want('stats'): run_stats(ctx, exe, runner, 64 if q else 640, found)
+    if want('matrices'): run_matrices(ctx, exe, 64 if q else 640, found)
+    if want('ranks'): run_ranks(ctx, exe, runner, 120 if q else 1500, found)
+    if want('simtub'): run_simtub(ctx, exe, 16 if q else 120, found)
+    if only is not None: ctx.notes.append('partial run: C05_ONLY=%s' % ','.join(only))
     ctx.cov['rule'] = ('case = (algorithm, Db, kind of masking): kriging / xvalid (unique and moving neighbourhoods, SK/OK/UK, 1-2 variables, heterotopic), '
                        'experimental variograms (1-2 variables, 1-2 directions, variogram / covariance), statistics (Mono, Multi, Correl, variance matrix, per-sample), '
                        'covariance and drift matrices (plain and Optim), rank lists, turning-bands simulations; masks: selection (0/1, undefined value, full, empty), '
